@@ -176,7 +176,8 @@ Fixpoint makro_loop (fuel : nat) (s : bytes) (domain : bytes) (ex : bool) (acc :
   | O => Crash 98
   | S f =>
     match s with
-    | 37 :: c :: t =>
+    | c0 :: c :: t =>
+        if negb (c0 =? 37) then Ok (MPerm, q) else
         let cont (add : bytes) (t' : bytes) (q' : list qev) :=
             let acc' := acc ++ add ++ take_while not_pct t' in
             match drop_while not_pct t' with
